@@ -92,6 +92,31 @@ def PyExpr.stepExpression : PyExpr → PyExpr | .mk _ _ _ _ _ e => e.getD .missi
 /-- a language-graph asset, identified by its name -/
 abbrev LgAsset := String
 
+/-- `attack_step['reaches']` / `attack_step['requires']` of the resolved attack-step dictionary of the language:
+`{'overrides': .., 'stepExpressions': [..]}` or `None` -/
+structure PyReaches where
+  overrides : Bool := true
+  stepExpressions : List PyExpr := []
+  deriving Repr, Inhabited
+/-- the resolved attack-step dictionary of the language (`lang_graph._get_attacks_for_asset_type(t)[name]`, kept
+as `AttackGraphNode.attributes`): the keys that `_generate_graph` reads.  `meta` (field `meta_`) is always a dict, `ttc`,
+`requires` and `reaches` are a dict or `None`. -/
+structure PyAttribs where
+  reaches : Option PyReaches := none
+  type : String := "or"
+  ttc : Option PyDictS := none
+  tags : List String := []
+  meta_ : PyDictS := []
+  requires : Option PyReaches := none
+  deriving Repr, Inhabited
+
+/-- `model.attackers[i]` (`AttackerAttachment`): `name` is an `Optional[str]`, `entry_points` a list of
+`(asset, [attack step names])` -/
+structure PyAttackerInfo where
+  name : Option String := none
+  entry_points : List (PyAssetObj × List String) := []
+  deriving Repr, Inhabited
+
 /-- what the evaluator calls on its `lang_graph` and `model` arguments: *parameters* of the translation (the
 assumed behaviour of these methods is part of the trusted base; `Py/Abs.lean` instantiates them from the
 hand-written model).  `whileFuel` bounds the unrolling of `while` loops. -/
@@ -103,16 +128,20 @@ structure EvalEnv where
   whileFuel : Nat
   /-- fuel handed to the (unboundedly recursive) evaluator by its callers -/
   evalFuel : Nat
+  /-- `self.model is not None` (a `Model` object is always truthy) / `self.lang_graph is not None`.  Reading an
+  attribute of an absent model / language graph raises `AttributeError` in Python; the translated code reads the
+  field of `env` instead — the theorems about code that does so unguarded assume the flag. -/
+  has_model : Bool := true
+  has_lang_graph : Bool := true
+  /-- `model.assets` and `model.attackers`, in list order -/
+  assets : List PyAssetObj := []
+  attackers : List PyAttackerInfo := []
+  /-- `lang_graph._get_attacks_for_asset_type(t)`: the dict attack-step name ↦ resolved attack-step dictionary,
+  in insertion order (`.items()`); assumed not to raise -/
+  _get_attacks_for_asset_type : String → List (String × PyAttribs) := fun _ => []
+  /-- `getattr(asset, name)` for the name of a defense of the asset's type: its current value -/
+  getattr_asset : PyAssetObj → String → Option PyFloat := fun _ _ => none
 
-/-- the part of `AttackGraphNode.attributes` (the resolved attack-step dictionary of the language) that the
-linking loop of `_generate_graph` reads: `attributes['reaches']['stepExpressions']` -/
-structure PyReaches where
-  overrides : Bool := true
-  stepExpressions : List PyExpr := []
-  deriving Repr, Inhabited
-structure PyAttribs where
-  reaches : Option PyReaches := none
-  deriving Repr, Inhabited
 /-- `attributes['reaches']` (guarded in the code by `isinstance(attributes, dict)`; `None` otherwise) -/
 def attribsReaches (a : Option PyAttribs) : Option PyReaches := a.bind (·.reaches)
 /-- `reaches['stepExpressions']` (guarded by the truthiness of `reaches`) -/
@@ -167,9 +196,21 @@ structure H where
   _id_to_attacker : List (Int × ARef) := []
   next_node_id : Int := 0
   next_attacker_id : Int := 0
+  /-- allocation counters: every reference `< nfresh` (`< afresh`) has been handed out by a constructor call
+  (`allocN` / `allocA`); Python has no counterpart (a new object is simply distinct from all existing ones) -/
+  nfresh : Nat := 0
+  afresh : Nat := 0
 
 def H.setN (s : H) (r : NRef) (o : PyNode) : H := { s with n := fun x => if x = r then o else s.n x }
 def H.setA (s : H) (r : ARef) (o : PyAttacker) : H := { s with a := fun x => if x = r then o else s.a x }
+
+/-- `AttackGraphNode(..)` / `Attacker(..)`: the constructor call creates a new object, distinct from every object
+created before — the reference `nfresh` (`afresh`) — with the given field values (fields not given: the
+dataclass defaults = the defaults of `PyNode` / `PyAttacker`); returns the new heap and the reference -/
+def H.allocN (s : H) (o : PyNode) : H × NRef :=
+  ({ s with n := fun x => if x = s.nfresh then o else s.n x, nfresh := s.nfresh + 1 }, s.nfresh)
+def H.allocA (s : H) (o : PyAttacker) : H × ARef :=
+  ({ s with a := fun x => if x = s.afresh then o else s.a x, afresh := s.afresh + 1 }, s.afresh)
 
 /-! ### Python built-ins used by the translated code -/
 
@@ -201,6 +242,18 @@ def truthyOptBool (x : Option Bool) : Bool := x == some true
 def truthyOptInt (x : Option Int) : Bool := match x with | some v => v != 0 | none => false
 /-- an `Optional[bool]` stored into a `bool` attribute (the code asserts `isinstance(.., bool)` first; `None` is falsy) -/
 def optBoolGet (x : Option Bool) : Bool := x.getD false
+
+/-- truthiness of an `Optional[str]`: `None` and `''` are falsy -/
+def truthyOptStr (x : Option String) : Bool := match x with | some v => v != "" | none => false
+/-- the string value of an `Optional[str]` that the code has just checked to be truthy (`if not x: raise ..`);
+`""` is never used -/
+def optStrVal (x : Option String) : String := x.getD ""
+/-- `l[i]` for a literal index `i ≥ 0`: `IndexError` when out of range -/
+def pyIndex {α} (l : List α) (i : Nat) : Except PyErr α :=
+  match l[i]? with | some v => .ok v | none => .error .other
+/-- `d['stepExpressions']` for `d = attack_step['requires']` (a dict or `None`), unguarded: `TypeError` on `None` -/
+def requiresExprs (r : Option PyReaches) : Except PyErr (List PyExpr) :=
+  match r with | some x => .ok x.stepExpressions | none => .error .other
 
 /-- fuel handed to the (unboundedly recursive) propagation functions when they are entered from a
 non-recursive caller; `Props/C08.lean` proves that it is never exhausted -/
